@@ -14,6 +14,12 @@ ASSUME \A Q1, Q2 \in AllProtocols : Q1.name = Q2.name => Q1 = Q2
 \* the shortest path to a state really leads there
 ASSUME \A Q \in AllProtocols : \A s \in States(Q) : Run(Q, Q.init, PathTo(Q, s)) = s
 
+\* Done paths: every protocol has exactly one terminal state, and (handshake aside, which ends
+\* with the server's answer) a client-agency state from which one client message reaches it
+ASSUME \A Q \in AllProtocols : Cardinality({ s \in States(Q) : Q.agency[s] = "nobody" }) = 1
+ASSUME \A Q \in AllProtocols : Q.name \in {"handshake", "handshake_n2c"} \/
+          \E t \in Q.trans : Q.agency[t.from] = "client" /\ Q.agency[t.to] = "nobody"
+
 MCInit == SInit(AllProtocols)
 MCNext == SNext
 Bound == WireBound(3)
